@@ -142,6 +142,9 @@ def _drive_axis(ctx, fn, items, rng, spec, budget):
             d = gen.disguise(sub, rng)
             call(fn, d, raw) if raw else call(fn, d)
             COL.count('judged_disguised')
+        if sub and all(isinstance(x, str) and len(x) == 1 for x in sub) and k % 3 == 1:
+            call(fn, ''.join(sub))          # a str is a collection of its characters
+            COL.count('str_arguments')
 
 
 def run_case(concepts, case, spec):
